@@ -496,13 +496,13 @@ def c03(ctx, api):
                                                        '-alpha', 'Bytes', '-maxlen', str(n), '-prop', 'C03'])
     acc.add('GenChars Bytes alphabet (quotes, backslash, invalid UTF-8 byte, NUL, multi-byte characters): every concatenation of <= %d lexemes compiled' % n,
             st, summ)
-    ctx['harness_env'] = {'VERIF_DEEP': '5000000' if thorough else '200000'}
+    ctx['harness_env'] = {'VERIF_DEEP': '5000000' if thorough else '100000'}
     try:
         st, summ = api['run_tlc_to_harness'](ctx, 'deep', 'GenCost', cfg(constants={'Emit': 'TRUE', 'Prop': '"C03"'}), timeout=3000,
                                              harness_args=['-only', 'scale', '-timeout', '120s', '-workers', '8'])
     finally:
         ctx['harness_env'] = {}
-    acc.add('nesting families (parentheses, !, index, flatten, pipe, multi-select, unary minus, ||) to depth %s' % ('5,000,000' if thorough else '200,000'), st, summ)
+    acc.add('nesting families (parentheses, !, index, flatten, pipe, multi-select, unary minus, ||) to depth %s' % ('5,000,000' if thorough else '100,000'), st, summ)
     st, summ = api['run_tlc_to_harness'](ctx, 'call', 'GenCall', cfg(constants={'Emit': 'TRUE', 'Prop': '"C03"', 'Small': 15 if thorough else 9}), timeout=3000)
     acc.add('GenCall: every function with every pool tuple (integer arguments at 0, +-1, fractions) -- a panic is outside every admissible set', st, summ)
     st, summ = api['run_tlc_to_harness'](ctx, 'cost', 'GenCost', cfg(constants={'Emit': 'TRUE', 'Prop': '"C03"'}), timeout=3000,
